@@ -971,15 +971,15 @@ func (o *orch) writeEvidence(a *agg, c counts, nviol int) {
 	distinct := 0
 	switch o.prop {
 	case "C06":
-		rule = "histories of 4..maxops operations (compile, MustCompile, Expression.Search, one-shot Search, feed a result back as a document, caller mutates its own document) over 1-3 generated expressions and 2-5 generated documents, derived from (VERIF_SEED, run index); distinct_nontrivial = distinct expression texts that returned a non-null value in some call of a history and whose outcome was compared with a fresh evaluation"
+		rule = "histories of 4..maxops operations, 1/60 of them 100-180 (compile, MustCompile, Expression.Search, one-shot Search, feed a result back as a document, caller mutates its own document and re-evaluates, compile churn) over 1-3 generated expressions and 2-5 generated documents, derived from (VERIF_SEED, run index); distinct_nontrivial = distinct expression texts that returned a non-null value in some call of a history and whose outcome was compared with a fresh evaluation"
 		distinct = len(a.ntx)
 		distinctWhat = "expression texts with a non-null compared outcome"
 	case "C07":
-		rule = "2-4 simulated clients, 1-4 calls each, sharing compiled Expressions and documents, under a seeded schedule (random walk, PCT depth 1-3, sequential, preemption sweep), plain and -race builds; distinct_nontrivial = distinct switch sequences (hash of the (from task, site, to task) list) with at least one preemption, i.e. distinct interleavings actually executed"
+		rule = "2-7 simulated clients, 1-7 calls each (general runs, compile storms, function-family runs, invalid-text runs, deep-nesting runs, big-data runs), sharing compiled Expressions and documents, under a seeded schedule (random walk, PCT depth 1-3, hot-site walk, sequential, strided and hot preemption sweeps), plain and -race builds, cold-start race processes; distinct_nontrivial = distinct switch sequences (hash of the (from task, site, to task) list) with at least one preemption, i.e. distinct interleavings actually executed"
 		distinct = len(a.sw)
 		distinctWhat = "distinct interleavings (switch-sequence hashes)"
 	case "C15":
-		rule = "one generated (expression, document) sample per run, evaluated under 6 map-order policies x {one-shot on a fresh document, reused Expression on a re-ordered document} plus dual execution and a second OS process; distinct_nontrivial = distinct expression texts for which some evaluation iterated a map of >= 2 keys in non-sorted order and returned a non-null value that was compared across orders"
+		rule = "one generated (expression, document) sample per run (general, function-family, medium and big-data samples), evaluated under 6 map-order policies x {one-shot on a fresh document, reused Expression on a re-ordered document} plus dual execution, optional 140-fold reuse, forced GC and random-walk schedules for library goroutines, and a second OS process; distinct_nontrivial = distinct expression texts for which some evaluation iterated a map of >= 2 keys in non-sorted order and returned a non-null value that was compared across orders"
 		distinct = len(a.ntx)
 		distinctWhat = "expression texts evaluated under a re-ordered map iteration with a non-null result"
 	}
